@@ -807,6 +807,9 @@ funcexpr(struct func *f, struct expr *e)
 			return lval.addr;
 		case TMUL:
 			r = funcexpr(f, e->base);
+			/* '*p' for a pointer to void has no value to load */
+			if (e->type == &typevoid)
+				return NULL;
 			return funcload(f, e->type, (struct lvalue){r});
 		case TSUB:
 			r = funcexpr(f, e->base);
